@@ -43,6 +43,11 @@ pub struct Phase {
     pub ch: u8,
     pub mode: u8,
     pub size: u32,
+    /// at the start of the phase one application (true = the client's) does not call step() for 1.0 .. 1.5 times its
+    /// OWN active timeout (applied only where that is at most 0.8 times the other side's timeout); the frames
+    /// of the other side wait in its socket meanwhile
+    #[serde(default)]
+    pub stall: Option<(bool, u8)>,
 }
 
 fn ep_ideal_strategy(tier: Tier) -> BoxedStrategy<EpIdeal> {
@@ -55,8 +60,9 @@ fn ep_ideal_strategy(tier: Tier) -> BoxedStrategy<EpIdeal> {
         prop_oneof![3 => 0u8..3, 1 => 0u8..64],
         prop_oneof![1 => Just(0u8), 2 => Just(1u8), 2 => Just(2u8), 3 => Just(3u8)],
         prop_oneof![6 => 5u32..200, 2 => 200u32..3000, 1 => 3000u32..12_000],
+        proptest::option::weighted(0.3, (any::<bool>(), any::<u8>())),
     )
-        .prop_map(|(dur_ms, lead_client, lead_every, other_every_ms, ch, mode, size)| Phase { dur_ms, lead_client, lead_every, other_every_ms, ch, mode, size });
+        .prop_map(|(dur_ms, lead_client, lead_every, other_every_ms, ch, mode, size, stall)| Phase { dur_ms, lead_client, lead_every, other_every_ms, ch, mode, size, stall });
     (any::<u64>(), side(), side(), (prop_oneof![Just(0u32), 0u32..100_000], prop_oneof![Just(0u32), 0u32..100_000]), prop_oneof![Just(5_000u32), Just(16_000u32), Just(30_000u32)], proptest::collection::vec(phase, 1..tier.pick(4, 6)))
         .prop_map(|(seed, server, client, (l0, l1), step_us, phases)| EpIdeal { seed, server, client, latency_us: [l0, l1], step_us, phases })
         .boxed()
@@ -68,6 +74,9 @@ struct Watch {
     /// longest time an endpoint owed acknowledgements while its send credit was negative, us (0 client, 1 server)
     ack_starved_us: [u64; 2],
     starved_since: [Option<u64>; 2],
+    /// longest time an endpoint's send credit stayed negative without interruption, us
+    credit_negative_us: [u64; 2],
+    negative_since: [Option<u64>; 2],
     had_rto: [bool; 2],
     /// the allowed rate was at the s/64 floor at the step the rate controller handled its first feedback or expiry
     floor_at_first_feedback: [bool; 2],
@@ -77,8 +86,15 @@ impl Watch {
     fn sample(&mut self, side: usize, now_us: u64, st: Option<uflow::verif::VerifStats>) {
         let Some(st) = st else {
             self.starved_since[side] = None;
+            self.negative_since[side] = None;
             return;
         };
+        if st.flush_alloc < 0 {
+            let since = *self.negative_since[side].get_or_insert(now_us);
+            self.credit_negative_us[side] = self.credit_negative_us[side].max(now_us - since);
+        } else {
+            self.negative_since[side] = None;
+        }
         if st.ack_queue_len > 0 && st.flush_alloc < 0 {
             let since = *self.starved_since[side].get_or_insert(now_us);
             self.ack_starved_us[side] = self.ack_starved_us[side].max(now_us - since);
@@ -94,14 +110,30 @@ impl Watch {
     }
 }
 
-/// The connection broke (or stopped moving) on an ideal network: recorded finding D28 if an endpoint sat on owed
-/// acknowledgements for a second or more because its send credit was negative, anything else is reported as it is.
-fn broken(watch: &Watch, suffix: &str, what: String, mut classes: Vec<&'static str>) -> CaseResult {
+/// The connection broke (or stopped moving) on an ideal network.
+/// * A Timeout reported although a data / sync / ack frame of the peer had reached the reporting endpoint's socket
+///   within its active timeout is never explained by anything a slow peer does: reported as it is.
+/// * Otherwise it is recorded finding D28 if an endpoint sat on owed acknowledgements for a second or more, or
+///   could not send anything for two seconds or more, because its send credit was negative.
+/// * Anything else is reported as it is.
+fn broken(w: &crate::sim::world::World, reporter: Option<(std::net::SocketAddr, u64, u64)>, watch: &Watch, suffix: &str, what: String, mut classes: Vec<&'static str>) -> CaseResult {
     let starved = watch.ack_starved_us[0].max(watch.ack_starved_us[1]);
+    let negative = watch.credit_negative_us[0].max(watch.credit_negative_us[1]);
     let floor_first = watch.floor_at_first_feedback[0] || watch.floor_at_first_feedback[1];
     let known = "oracle:c05:endpoints:connection_lost:acks_starved_of_send_credit";
-    let detail = format!("{what}; longest time an endpoint owed acknowledgements with negative send credit: client {} us, server {} us; allowed rate at the floor right after the first feedback: {floor_first}", watch.ack_starved_us[0], watch.ack_starved_us[1]);
-    if starved >= 1_000_000 && !floor_first {
+    let detail = format!(
+        "{what}; longest time an endpoint owed acknowledgements with negative send credit: client {} us, server {} us; longest time with negative send credit: client {} us, server {} us; allowed rate at the floor right after the first feedback: {floor_first}",
+        watch.ack_starved_us[0], watch.ack_starved_us[1], watch.credit_negative_us[0], watch.credit_negative_us[1]
+    );
+    if let Some((addr, t_us, timeout_us)) = reporter {
+        if let Some(d) = w.delivered.iter().rev().find(|d| d.to == addr && d.t_us <= t_us && d.t_us + timeout_us > t_us + 2000 && matches!(d.bytes.first(), Some(&10) | Some(&11) | Some(&12))) {
+            return CaseResult::fail(
+                format!("oracle:c05:endpoints:connection_lost:timeout_without_silence{suffix}"),
+                format!("{what}; a frame of type {} from its peer had reached its socket at t={} us, only {} us before (active timeout {} us)", d.bytes[0], d.t_us, t_us - d.t_us, timeout_us),
+            );
+        }
+    }
+    if (starved >= 1_000_000 || negative >= 2_000_000) && !floor_first {
         if tolerate_known(known) {
             classes.push("known_d28_acks_starved_of_send_credit");
             return CaseResult::ok(true, classes);
@@ -121,11 +153,17 @@ fn run_endpoints(c: &EpIdeal) -> CaseResult {
     let caddr = w.clients[ci].addr;
     let step = c.step_us.clamp(1_000, 50_000) as u64;
     let mut watch = Watch::default();
+    // (stalled[0]: the client application is not stepping, stalled[1]: the server application)
+    let mut stalled = [false, false];
     macro_rules! step_both {
         () => {
             w.advance(step);
-            w.step_server();
-            w.step_client(ci);
+            if !stalled[1] {
+                w.step_server();
+            }
+            if !stalled[0] {
+                w.step_client(ci);
+            }
             watch.sample(0, w.now_us, w.clients[ci].client.as_ref().and_then(|cl| cl.verif_stats()));
             watch.sample(1, w.now_us, w.server.as_ref().and_then(|s| s.client(&caddr)).and_then(|rc| rc.borrow().verif_stats()));
         };
@@ -145,14 +183,36 @@ fn run_endpoints(c: &EpIdeal) -> CaseResult {
         let lead_ms = ((limit_ms * ph.lead_every.max(1) as u64) / 255).max(1);
         let lead = if ph.lead_client { 0 } else { 1 };
         let mut next = [0u64; 2];
-        let t_end = w.now_us + ph.dur_ms as u64 * 1000;
+        let mut t_end = w.now_us + ph.dur_ms as u64 * 1000;
+        let mut stall_until = 0u64;
+        let mut stall_side = 0usize;
+        if let Some((client, f)) = ph.stall {
+            stall_side = if client { 0 } else { 1 };
+            let own = if client { ccfg.active_timeout_ms } else { scfg.ep.active_timeout_ms } as u64;
+            let other = if client { scfg.ep.active_timeout_ms } else { ccfg.active_timeout_ms } as u64;
+            let stall_ms = own + own * f as u64 / 510;
+            // the side that keeps stepping must be the one that keeps talking, or it would hear nothing it could not
+            // also hear from a dead peer; and it must not run into its own timeout
+            if stall_ms * 10 <= other * 8 && (stall_side == 0) != ph.lead_client {
+                stall_until = w.now_us + stall_ms * 1000;
+                t_end = t_end.max(stall_until + 500_000);
+                classes.push("endpoints_application_stalled_longer_than_its_own_timeout");
+            }
+        }
         if ph.other_every_ms.is_none() {
             longest_one_way_ms = longest_one_way_ms.max(ph.dur_ms as u64);
         }
         while w.now_us < t_end {
+            stalled = [false, false];
+            if w.now_us < stall_until {
+                stalled[stall_side] = true;
+            }
             for d in 0..2 {
                 let every_ms = if d == lead { Some(lead_ms) } else { ph.other_every_ms.map(|v| v as u64) };
                 let Some(every_ms) = every_ms else { continue };
+                if stalled[d] {
+                    continue;
+                }
                 if w.now_us >= next[d] {
                     next[d] = w.now_us + every_ms * 1000;
                     let idx = sent[d].len() as u32;
@@ -170,7 +230,8 @@ fn run_endpoints(c: &EpIdeal) -> CaseResult {
                                 eprintln!("t={} {}->{} type={} len={} fate={:?}", r.t_us, r.from.port(), r.to.port(), r.bytes[0], r.bytes.len(), r.fate);
                             }
                         }
-                        return broken(&watch, "", format!("ideal network, an application submitting at least every {lead_ms} ms (active timeouts {} / {} ms): at t={} us the server no longer has the client (server events: {:?})", scfg.ep.active_timeout_ms, ccfg.active_timeout_ms, w.now_us, w.server_events.iter().filter(|e| !matches!(e.2, SEv::Receive(..))).collect::<Vec<_>>()), classes);
+                        let rep = w.server_events.iter().find(|e| matches!(e.2, SEv::Error(_, SErr::Timeout))).map(|e| (w.server_addr, e.1, scfg.ep.active_timeout_ms as u64 * 1000));
+                        return broken(&w, rep, &watch, "", format!("ideal network, an application submitting at least every {lead_ms} ms (active timeouts {} / {} ms): at t={} us the server no longer has the client (server events: {:?})", scfg.ep.active_timeout_ms, ccfg.active_timeout_ms, w.now_us, w.server_events.iter().filter(|e| !matches!(e.2, SEv::Receive(..))).collect::<Vec<_>>()), classes);
                     }
                     sent[d].push((idx, ph.mode % 4, ph.ch % 64, size));
                 }
@@ -181,6 +242,7 @@ fn run_endpoints(c: &EpIdeal) -> CaseResult {
             }
         }
     }
+    stalled = [false, false];
     // drain: both keep stepping until neither side has anything queued or in flight (ends at once then: with both
     // keepalives off a silent connection may time out legitimately)
     let drained = |w: &World| -> bool {
@@ -218,13 +280,15 @@ fn run_endpoints(c: &EpIdeal) -> CaseResult {
     }
     // the connection stayed up
     if let Some(e) = w.clients[ci].events.iter().find(|e| matches!(e.2, CEv::Error(_) | CEv::Disconnect)) {
-        return broken(&watch, ":client", format!("ideal network, an application submitting at least every {limit_ms} ms (active timeouts {} / {} ms): the client reported {:?} at t={} us", scfg.ep.active_timeout_ms, ccfg.active_timeout_ms, e.2, e.1), classes);
+        let rep = if matches!(e.2, CEv::Error(SErr::Timeout)) { Some((caddr, e.1, ccfg.active_timeout_ms as u64 * 1000)) } else { None };
+        return broken(&w, rep, &watch, ":client", format!("ideal network, an application submitting at least every {limit_ms} ms (active timeouts {} / {} ms): the client reported {:?} at t={} us", scfg.ep.active_timeout_ms, ccfg.active_timeout_ms, e.2, e.1), classes);
     }
     if let Some(e) = w.server_events.iter().find(|e| matches!(e.2, SEv::Error(..) | SEv::Disconnect(_))) {
-        return broken(&watch, ":server", format!("ideal network, an application submitting at least every {limit_ms} ms (active timeouts {} / {} ms): the server reported {:?} at t={} us", scfg.ep.active_timeout_ms, ccfg.active_timeout_ms, e.2, e.1), classes);
+        let rep = if matches!(e.2, SEv::Error(_, SErr::Timeout)) { Some((w.server_addr, e.1, scfg.ep.active_timeout_ms as u64 * 1000)) } else { None };
+        return broken(&w, rep, &watch, ":server", format!("ideal network, an application submitting at least every {limit_ms} ms (active timeouts {} / {} ms): the server reported {:?} at t={} us", scfg.ep.active_timeout_ms, ccfg.active_timeout_ms, e.2, e.1), classes);
     }
     if stalled {
-        return broken(&watch, ":stalled", format!("ideal network: packets still queued, yet no event at either application for 120 s (now t={} us)", w.now_us), classes);
+        return broken(&w, None, &watch, ":stalled", format!("ideal network: packets still queued, yet no event at either application for 120 s (now t={} us)", w.now_us), classes);
     }
     // every packet, exactly once, in submission order (TimeSensitive ones may be missing)
     for d in 0..2 {
@@ -297,11 +361,11 @@ impl Check for C05 {
     }
 
     fn rule(&self) -> String {
-        "case = SimPair scenario with FIFO loss-free links (constant latency 0..1 s per direction), traffic in both directions, all four modes, bursts exceeding the flush budget, the packet / frame windows (2^k) and the receive allocation, arbitrary cadence, base ids anywhere, plus a bulk shape (4096 windows, streams of hundreds of tiny packets per tick with rare Reliable ones); followed by a fair phase to quiescence; about 1 case in 13 instead runs a real Server and a real Client (World) on a loss-free FIFO network: 1-5 phases of 0.5-70 s in which one application submits a packet (any mode, 5-12000 bytes) at least every third of the shorter active timeout and the other one is silent or submits at its own interval, keepalive on or off per side, active timeouts 10 / 20 / 60 s, then stepping until nothing is queued or in flight - there the connection must stay up (no Error, no Disconnect) and the same delivery oracle applies. Oracle: the delivered sequence at each end equals the opposite end's submission sequence with some TimeSensitive packets removed (same global order across channels, nothing else missing, nothing twice). Non-trivial = some tick submitted more than one packet or a multi-fragment packet, and at least 5 packets were delivered. Distinct = distinct serialised scenario.".into()
+        "case = SimPair scenario with FIFO loss-free links (constant latency 0..1 s per direction), traffic in both directions, all four modes, bursts exceeding the flush budget, the packet / frame windows (2^k) and the receive allocation, arbitrary cadence, base ids anywhere, plus a bulk shape (4096 windows, streams of hundreds of tiny packets per tick with rare Reliable ones); followed by a fair phase to quiescence; about 1 case in 13 instead runs a real Server and a real Client (World) on a loss-free FIFO network: 1-5 phases of 0.5-70 s in which one application submits a packet (any mode, 5-12000 bytes) at least every third of the shorter active timeout and the other one is silent or submits at its own interval, keepalive on or off per side, active timeouts 10 / 20 / 60 s, in three phases of ten one application stalls (does not call step()) for 1.0-1.5 times its own active timeout while the other keeps talking, then stepping until nothing is queued or in flight - there the connection must stay up (no Error, no Disconnect) and the same delivery oracle applies. Oracle: the delivered sequence at each end equals the opposite end's submission sequence with some TimeSensitive packets removed (same global order across channels, nothing else missing, nothing twice). Non-trivial = some tick submitted more than one packet or a multi-fragment packet, and at least 5 packets were delivered. Distinct = distinct serialised scenario.".into()
     }
 
     fn assumptions(&self) -> Vec<String> {
-        vec!["quiescence is awaited with the progress-based bound of C02 (stall window 15 virtual minutes, cap 6 h)".into(), "payload identity convention of C01".into(), "endpoint cases: known finding D28 is excluded by shape (a connection lost or stalled on the ideal network after an endpoint owed acknowledgements for >= 1 s while its send credit was negative, and not the fixed D27 signature) and counted as class known_d28_acks_starved_of_send_credit".into()]
+        vec!["quiescence is awaited with the progress-based bound of C02 (stall window 15 virtual minutes, cap 6 h)".into(), "payload identity convention of C01".into(), "endpoint cases: known finding D28 is excluded by shape (a connection lost or stalled on the ideal network after an endpoint owed acknowledgements for >= 1 s while its send credit was negative, or had negative credit for >= 2 s, and not the fixed D27 signature; a Timeout reported although a frame of the peer had reached the reporter's socket within its active timeout is never excluded) and counted as class known_d28_acks_starved_of_send_credit".into()]
     }
 
     fn run(&self, case: &Case) -> CaseResult {
